@@ -502,6 +502,7 @@ def run(cx):
     # ---- C01-FOLD (shared with C03): a value folded at transpile time is the value Python computes at that point ------
     from . import c03
     c03.rule_fold_sites(cx, "C01")
+    c03.rule_global_init(cx, "C01-GLOBAL-INIT")
 
     # ---- C01-DISPATCH (shared with C07) ------------------------------------------------------
     c07.rule_dispatch(cx, "C01")
